@@ -23,6 +23,10 @@ pub struct Case {
     pub rtol: f64,
     pub atol_rel: f64,
     pub analytic_jac: bool,
+    /// linear problems: the same run started at x0 = sign * 10^|shift| (far from the origin the transient cannot be followed
+    /// in time, but the run must still succeed at a comparable cost)
+    #[serde(default)]
+    pub shift: Option<f64>,
 }
 
 fn run_one(c: &Case, p: &StiffProb, xend: f64, rtol: f64, atol: f64) -> Result<Solution, String> {
@@ -106,8 +110,33 @@ pub fn check(c: &Case) -> Outcome {
             if s.nfev > 4 * s2.nfev + 200 {
                 return Outcome::viol(format!("{}: right-hand-side evaluations grow with the stiffness ratio: {} at kappa=1e{:.1} vs {} at kappa=1e2", name, s.nfev, c.lk, s2.nfev));
             }
+            let mut shifted = 0;
+            // Far from the origin no step can be shorter than about 10 ulps of x0.  The transient of an initial state off the
+            // slow manifold is then only affordable if a first-order step of that length meets the tolerance:
+            // (10 eps |x0| kappa)^2 well below rtol; otherwise StepSizeTooSmall is the honest answer and nothing is asked.
+            let resolvable = |x0s: f64| (10.0 * f64::EPSILON * x0s.abs() * kappa).powi(2) <= 0.1 * c.rtol;
+            if let Some(e) = c.shift.filter(|e| resolvable(10f64.powf(e.abs()))) {
+                let x0s = e.signum() * 10f64.powf(e.abs());
+                let ps = StiffProb::new(&c.spec, kappa, x0s, d);
+                let xends = x0s + d * c.t_len;
+                let cs = &Case { x0: x0s, ..c.clone() };
+                let ss = match run_one(cs, &ps, xends, c.rtol, atol) {
+                    Ok(s) => s,
+                    Err(e) => return Outcome::viol(format!("{}: stiff linear problem (kappa=1e{:.1}) started at x0={:e}: {}", name, c.lk, x0s, e)),
+                };
+                if ss.status != Status::Success {
+                    return Outcome::viol(format!("{}: stiff linear problem with kappa=1e{:.1}, T={:.2}, rtol={:e} succeeds from x0={} ({} steps) but started at x0={:e} it ends with {} after {} steps", name, c.lk, c.t_len, c.rtol, c.x0, s.naccpt, x0s, status_name(ss.status), ss.nstep));
+                }
+                if let Some(m) = short_of_xend(&ss, x0s, xends) {
+                    return Outcome::viol(format!("{}: stiff linear problem (kappa=1e{:.1}) started at x0={:e}: {}", name, c.lk, x0s, m));
+                }
+                if ss.naccpt as f64 > 3.0 * s.naccpt as f64 + 50.0 {
+                    return Outcome::viol(format!("{}: stiff linear problem (kappa=1e{:.1}): {} accepted steps from x0={} but {} from x0={:e}", name, c.lk, s.naccpt, c.x0, ss.naccpt, x0s));
+                }
+                shifted = 1;
+            }
             Outcome::pass(
-                format!("{}:{}", name, if matches!(c.spec, StiffSpec::Tri { .. }) { "tri" } else { "mixed" }),
+                format!("{}:{}{}", name, if matches!(c.spec, StiffSpec::Tri { .. }) { "tri" } else { "mixed" }, if shifted == 1 { ":shifted" } else { "" }),
                 kappa * c.t_len >= 1e4,
                 json!({"err_over_bound": emax / bound, "steps_ratio": s.naccpt as f64 / nlim, "nfev_ratio": s.nfev as f64 / (4.0 * s2.nfev as f64 + 200.0), "lk": c.lk}),
             )
@@ -255,13 +284,13 @@ pub fn strategy() -> BoxedStrategy<Case> {
         1 => Just((StiffSpec::Robertson, 2.0)),
         1 => fr(1.0, 3.0).prop_map(|e| (StiffSpec::VdP { mu: 10f64.powf(e) }, 2.0)),
     ];
-    (spec, fr(0.0, 1.0), fr(-10.0, 10.0), any::<bool>(), fr(0.5, 12.0), prop_oneof![Just(Meth::RADAU), Just(Meth::BDF)], fr(3.0, 9.0), fr(-3.0, 0.0), any::<bool>())
-        .prop_map(|((spec, lkmax), lf, x0, back, t_len, method, re, ar, analytic_jac)| {
+    (spec, fr(0.0, 1.0), fr(-10.0, 10.0), any::<bool>(), fr(0.5, 12.0), prop_oneof![Just(Meth::RADAU), Just(Meth::BDF)], fr(3.0, 9.0), fr(-3.0, 0.0), any::<bool>(), proptest::option::weighted(0.2, (fr(2.0, 5.0), any::<bool>()).prop_map(|(e, neg)| if neg { -e } else { e })))
+        .prop_map(|((spec, lkmax), lf, x0, back, t_len, method, re, ar, analytic_jac, shift)| {
             let lk = 2.0 + lf * (lkmax - 2.0);
             let mixed = matches!(spec, StiffSpec::Mixed { .. });
             // mixed basis: rtol >= 1e-6; BDF: rtol >= 1e-8
             let re = if mixed { 3.0 + (re - 3.0) * 0.5 } else if method == Meth::BDF { 3.0 + (re - 3.0) * 5.0 / 6.0 } else { re };
-            Case { spec, lk, x0, back, t_len, method, rtol: 10f64.powf(-re), atol_rel: 10f64.powf(ar), analytic_jac }
+            Case { spec, lk, x0, back, t_len, method, rtol: 10f64.powf(-re), atol_rel: 10f64.powf(ar), analytic_jac, shift }
         })
         .boxed()
 }
@@ -274,7 +303,7 @@ pub fn run(ctx: &Ctx, known: &[Known]) -> Report {
     let stats = run_generated(ctx, "C14", "gen", &strategy, &check, cases, known);
     Report {
         id: "C14".into(),
-        rule: "cases = stiff linear problems with closed-form solutions in two families (triangular coupling: fast block with rates kappa^u_j, one equal to kappa, driving a slow block, kappa = 1e2..1e10; fully mixed basis K = S diag(kappa^u) S^-1, kappa <= 1e6, rtol >= 1e-6), n = 1..8, initial transients of O(1), both directions (reflected so that the problem stays stable), T = 0.5..12; linear kinetics chains with total-mass conservation (kappa to 1e8); Robertson to T = 10^U[0.4,8.8]; Van der Pol (mu = 10..1000) on its slow phase (Radau vs BDF) or through more than one relaxation cycle (Success, landing, step count); Radau and BDF, rtol 1e-3..1e-9 (BDF 1e-8), analytic or finite-difference Jacobian. Oracle: Success with the last sample at xend (32 ulp); error vs exact <= 100*cond(S)*naccpt*tolscale + floor; the same problem at kappa and at 1e2: naccpt(kappa) <= 3 naccpt(1e2) + 30 + 12 per decade of kappa above 1e2 (the excited transient is resolved with geometrically growing steps), nfev(kappa) <= 4 nfev(1e2) + 200; linear invariants to 1e-11*|w||y|*sqrt(steps) + 64 eps * flux * T (x1000 with the finite-difference Jacobian, which divides the right-hand side's rounding noise by its increment); Radau and BDF agree on Van der Pol. Non-trivial = kappa*T >= 1e4 (an explicit method would need thousands of steps), or a nonlinear problem. Distinct = distinct canonical JSON.".into(),
+        rule: "cases = stiff linear problems with closed-form solutions in two families (triangular coupling: fast block with rates kappa^u_j, one equal to kappa, driving a slow block, kappa = 1e2..1e10; fully mixed basis K = S diag(kappa^u) S^-1, kappa <= 1e6, rtol >= 1e-6), n = 1..8, initial transients of O(1), both directions (reflected so that the problem stays stable), T = 0.5..12; linear kinetics chains with total-mass conservation (kappa to 1e8); Robertson to T = 10^U[0.4,8.8]; Van der Pol (mu = 10..1000) on its slow phase (Radau vs BDF) or through more than one relaxation cycle (Success, landing, step count); Radau and BDF, rtol 1e-3..1e-9 (BDF 1e-8), analytic or finite-difference Jacobian. Oracle: Success with the last sample at xend (32 ulp); error vs exact <= 100*cond(S)*naccpt*tolscale + floor; the same problem at kappa and at 1e2: naccpt(kappa) <= 3 naccpt(1e2) + 30 + 12 per decade of kappa above 1e2 (the excited transient is resolved with geometrically growing steps), nfev(kappa) <= 4 nfev(1e2) + 200; one linear case in five is repeated from x0 = +-10^U[2,5] where the initial transient is still affordable with steps of 10 ulps of x0, (10 eps |x0| kappa)^2 <= 0.1 rtol (Success, landing, at most 3x + 50 steps); linear invariants to 1e-11*|w||y|*sqrt(steps) + 64 eps * flux * T (x1000 with the finite-difference Jacobian, which divides the right-hand side's rounding noise by its increment); Radau and BDF agree on Van der Pol. Non-trivial = kappa*T >= 1e4 (an explicit method would need thousands of steps), or a nonlinear problem. Distinct = distinct canonical JSON.".into(),
         assumptions: vec![
             "fully mixed basis restricted to kappa <= 1e6 and rtol >= 1e-6: beyond that the rounding noise kappa*eps of the right-hand side itself prevents the slow components from meeting the tolerance (conditioning of the evaluation, not a solver defect)".into(),
             "Van der Pol only on the slow manifold phase T <= 0.5 mu (contractive, so the two methods must agree to tolerance)".into(),
